@@ -14,7 +14,7 @@ Open Scope Z_scope.
 Theorem c01_path_consistent :
   forall (cell rng : Type)
          (decide : rng -> option (nat * node) -> list node -> list cell -> list rec * rng),
-    (forall g p kids cs, Forall (fun r => In (asg r) kids) (fst (decide g p kids cs))) ->
+    (forall g p kids cs, (2 <= length kids)%nat -> Forall (fun r => In (asg r) kids) (fst (decide g p kids cs))) ->
     forall t cells g rows g',
       tree_ok t ->
       run_type_assignment cell rng decide t cells g = Ok (rows, g') ->
@@ -27,8 +27,8 @@ Print Assumptions c01_path_consistent.
 Theorem c01_total :
   forall (cell rng : Type)
          (decide : rng -> option (nat * node) -> list node -> list cell -> list rec * rng),
-    (forall g p kids cs, length (fst (decide g p kids cs)) = length cs) ->
-    (forall g p kids cs, Forall (fun r => In (asg r) kids) (fst (decide g p kids cs))) ->
+    (forall g p kids cs, (2 <= length kids)%nat -> length (fst (decide g p kids cs)) = length cs) ->
+    (forall g p kids cs, (2 <= length kids)%nat -> Forall (fun r => In (asg r) kids) (fst (decide g p kids cs))) ->
     forall t cells g,
       tree_ok t ->
       exists rows g', run_type_assignment cell rng decide t cells g = Ok (rows, g').
@@ -38,9 +38,12 @@ Print Assumptions c01_total.
 (* non-vacuity: a 3-level taxonomy with a single top node and a single-child chain *)
 Definition ex_tree : tree :=
   [ [(1, [10; 11])]; [(10, [100]); (11, [110; 111])]; [(100, []); (110, []); (111, [])] ].
-Definition ex_decide (g : nat) (p : option (nat * node)) (kids : list node) (cs : list Z) : list rec * nat :=
-  (map (fun c => {| asg := if Z.even c then hd 0 kids else last kids 0; prob := (3, 4); corr := Some (1, 2);
-                    runners := []; agg := one |}) cs, S g).
+Definition ex_decide := ends_decide.
+(* ... a decision procedure that meets both hypotheses (they are satisfiable) ... *)
+Example c01_hypotheses_satisfiable :
+  (forall g p kids cs, (2 <= length kids)%nat -> length (fst (ex_decide g p kids cs)) = length cs) /\
+  (forall g p kids cs, (2 <= length kids)%nat -> Forall (fun r => In (asg r) kids) (fst (ex_decide g p kids cs))).
+Proof. exact ends_decide_ok. Qed.
 Example c01_example :
   match run_type_assignment Z nat ex_decide ex_tree [5; 6; 7] 0%nat with
   | Ok (rows, _) => spec_routing ex_tree 3 rows = true /\ map (map asg) rows = [[1; 11; 111]; [1; 10; 100]; [1; 11; 111]]
